@@ -41,17 +41,18 @@ pub fn expect_delivered_by(a: &Analysis, i: usize, f: usize) -> bool {
     if !col.cancelable {
         return true;
     }
-    let fo = match col.finish_op {
-        Some(x) => outer(x),
+    let fo_ref = match col.finish_op {
+        Some(x) => x,
         None => return false,
     };
+    let fo = outer(fo_ref);
     a.hb.before(fo, f)
         && a.op_executed(fo)
         && col.cancels.is_empty()
         && !collect_start_lost(a, r.collect)
         && !collect_signal_lost(a, r.collect, 2)
         && commit_consumed_before(a, r.collect, a.hist.ops[f].start_step, a.hist.ops[f].end_step)
-        && a.hb.before_eq(o, fo)
+        && a.ref_before_eq(r.submit_op, fo_ref)
 }
 
 /// the commit of collect c entered its ring before `step` (a commit parked behind a full ring is
@@ -335,7 +336,7 @@ pub fn c03_core(a: &Analysis, v: &mut Verdict, prop: &str, skip_inverted: bool) 
                 continue;
             }
             let o = outer(r.submit_op);
-            if !a.hb.before_eq(o, fo) {
+            if !a.ref_before_eq(r.submit_op, col.finish_op.unwrap()) {
                 continue;
             }
             let ok = a.twins(i).iter().any(|&j| a.matched[j].iter().any(|&d| a.delivered[d].batch == rbatch));
@@ -609,14 +610,14 @@ fn att_required(a: &Analysis, att: &ExpAtt, target_rec: &ExpRec) -> bool {
         return false;
     }
     // carried before the target finished (same op counts: entries of the same set)
-    if !(a.hb.before_eq(a_submit, t_submit)) {
+    if !a.ref_before_eq(att.submit_op, target_rec.submit_op) {
         return false;
     }
     // target finishes no later than the root
     match col.finish_op {
-        Some(fo) => {
-            let fo = outer(fo);
-            if !a.hb.before_eq(t_submit, fo) {
+        Some(fo_ref) => {
+            let fo = outer(fo_ref);
+            if !a.ref_before_eq(target_rec.submit_op, fo_ref) {
                 return false;
             }
             // main's ThreadEnd drops every remaining slot in slot order: the root may go first
